@@ -607,15 +607,6 @@ func runCase(c *tCase, choices []int, caseID string) (options []int) {
 	}
 	emit("tend %s => %d %s", caseID, len(cl), strings.Join(cl, " "))
 	r.checkClosest(snap)
-	r.mu.Lock()
-	mx := 0
-	for _, n := range r.perAddr {
-		if n > mx {
-			mx = n
-		}
-	}
-	r.mu.Unlock()
-
 	// cleanup (not part of the compared trace): stop, let every query return
 	r.op.Stop()
 	for _, e := range r.inflight() {
